@@ -29,7 +29,6 @@ ID = "C18"
 LEAN_MODULES = ["PyYetiVerif.Props.C18", "PyYetiVerif.Props.C18Up", "PyYetiVerif.Props.C18Idx", "PyYetiVerif.Props.C18Xyz",
                 "PyYetiVerif.Props.C18Tran", "PyYetiVerif.Props.C18Ulvs", "PyYetiVerif.Props.C18Prt", "PyYetiVerif.Props.C18Cyc",
                 "PyYetiVerif.Props.C18Tran0", "PyYetiVerif.Props.C18TranM",
-                "PyYetiVerif.Props.C18Tran0Fixed", "PyYetiVerif.Props.C18Tran0FixedUp",
                 "PyYetiVerif.Audit.C18"]
 AUDIT_FILE = "PyYetiVerif/Audit/C18.lean"
 THEOREMS = [
@@ -38,7 +37,7 @@ THEOREMS = [
         "base_sets_disjoint superset_is_union superset_is_union_bitwise user_sets_separate inSet_subword table_partition mksetpv_refuses_iff mksetpv_spec mksetpv_named expanddof_digits expanddof2_spec lookup_sound lookup_complete mkdofpv_strict_iff mkdofpv_spec mkdofpv_positions mkdofpv_set mat_intersect_spec find_subseq_spec list_intersect_spec flippv_spec index2bool_spec normIndex_spec find_vals_spec find_rows_spec find_unique_spec find_duplicates_spec index2slice_cases index2slice_spec merge_lists_spec merge_lists_inserts mkusetmask_plus mksetpv_plus make_uset_sets make_uset_accepts make_uset_sets_partial make_uset_split_rows make_uset_ids make_uset_coords_partial upasetpv_spec scatter_spec upqsetpv_length upqsetpv_one_upstream qupOwn_spec "
         "upqsetpv_fuel_stable upqsetpv_fuel_suffices upqsetpv_cycle_diverges cyclic_not_acyclic QConn_iff upqsetpv_spec canFlag_of_flagged separate_of_check upqIdx_eq_upasetpv upasetpv_perm mat_intersect_order mat_intersect_keep1 mat_intersect_keep2 mat_intersect_keep0 mat_intersect_keep_other findse_spec findse_find? nodeIds_spec nodeIds_make xyz_triple_exact find_xyz_triples_exact "
         "formtran_partition_identity formtran_aset_identity formtran_columns_are_target_set ulvsPath_spec ulvsLoop_chain formulvs_chain_is_product formulvs_noshortcut formulvs_cases formdrm_is_rows_of_formtran formdrm_same_se addulvs_consistent memberCol_spec usetprt_table_is_partition_listing mask_expression_is_union mask_expression_members mask_expression_append mask_expression_absorbs mkdofpv_expression find_subseq_mem_iff find_subseq_errors find_rows_other_length mat_intersect_duplicates index_helpers_refuse_together upqsetpv_never_returns_of_progress upqsetpv_cyclic_diverges formtran0_gset formtran0_phg formtran0_pha formtran_mset_composition dotChain_append ulvsPath_mono ulvsPath_split"
-        " iddofG_eq_iddofOf with_whole_table_is_current formtranFixed_eq_current formtranFixed_eq_current_nas iddofG_is_gset_rows formtran0_pha_fixed formtran_partition_identity_fixed formtran_mset_composition_fixed"
+        " iddofG_eq_iddofOf iddofG_is_gset_rows"
     ).split()
 ]
 TRUSTED = [
@@ -146,16 +145,12 @@ PARTIAL = (
     "their declared width; residual: formtran0_gset (every request, also with repeated DOF: the code since fix "
     "061ccd9), formtran0_phg, "
     "formtran0_pha (a-set rows = pha rows, s-set rows zero, m-set rows only located in `gm[:, a_n] @ pha`, not expanded). "
-    "The rows picked by `iddof[<positions within the g-set>]` are table rows only when every row of the table is in the "
-    "g-set (no extra points): the theorems state the code's indexing literally, and the residual with an extra point "
-    "in front of a-set DOF is the open finding F69 (formtran-se0-pha-extra-point-rows; the same indexing in formtran for "
-    "se != 0 returns a WRONG MATRIX without an exception, e.g. table e b o b, got [[2, 3]], request the o-set DOF: [[0, 1]]). "
-    "Candidate fix of F69 (corpus/c18_f69_candidate_fix.diff, NOT applied: iddof built from the g-set rows in _proc_mset, "
-    "_formtran_0, formtran): its model formtranFixed is proved with the indexing meaning what it should (iddofG_is_gset_rows, "
-    "formtran0_pha_fixed, formtran_partition_identity_fixed, formtran_mset_composition_fixed) and equal to the current "
-    "model on tables without extra points (with_whole_table_is_current, iddofG_eq_iddofOf, formtranFixed_eq_current, "
-    "formtranFixed_eq_current_nas); tied to the patched text by corpus/c18_f69_candidate_check.py (evidence "
-    "corpus/c18_f69_candidate_evidence.json), not by ./check; a DOF named twice with gset=True "
+    "The DOF are looked up in `iddof`, the [id, dof] table of the g-set rows (iddofG_is_gset_rows: entry p is the table row at the "
+    "p-th g-set position, the numbering of mksetpv(uset, 'g', x) and mkdofpv(uset, 'g', ...); iddofG_eq_iddofOf: the whole table "
+    "when it has no extra points) - the code since fix e74e9b9 of finding F69 (formtran-se0-pha-extra-point-rows: before it the "
+    "g-set positions indexed the WHOLE table, and an extra point in front of / between the DOF gave RuntimeError or, without any "
+    "exception, the rows of other DOF; regression guards in the oracle, extra points in the generated tables of the formtran "
+    "stream); a DOF named twice with gset=True "
     "gave a zero row before fix 061ccd9 (F68, repaired: formtran0_gset now holds for every request; regression family "
     "formtran-se0-gset-repeated-dof). formulvs / formdrm / addulvs are proved as products / rows / stored entries of "
     "formtran levels (formulvs_chain_is_product: left-to-right product along the tree path; associativity of the list "
@@ -780,14 +775,19 @@ def _tran_streams(ctx, cs, masks):
         plain = {"nas": N.to_plain(nas), "mats": T.plain_mats(nas), "parent": {str(k): v for k, v in info["parent"].items()},
                  "expected_upa": {str(k): v for k, v in info["expected_upa"].items()}}
         ses = info["order"]
+        # formtran only: the same dictionary with extra points (e-set rows: in the p-set, not in the g-set) in front of,
+        # between and behind the DOF of about half of the tables (finding F69, fixed by e74e9b9: `iddof` = the g-set rows)
+        nas_x, with_e = T.with_extra_points(rng, nas, nmask, share=0.5 if it % 2 else 0.0)
+        secs_x = N.serialize(nas_x) + " | " + T.mats_sections(nas_x)
+        plain_x = dict(plain, nas=N.to_plain(nas_x))
         with warnings.catch_warnings():
             warnings.simplefilter("ignore")
             # ---- formtran ----
             for se in [0] + rng.sample(ses, min(len(ses), 2)):
                 for _ in range(2):
-                    py, kind, sec, rt = T.gen_request(rng, nas["uset"][se], nmask)
+                    py, kind, sec, rt = T.gen_request(rng, nas_x["uset"][se], nmask)
                     gset = se == 0 and rng.random() < 0.35
-                    r = _call(n2p.formtran, nas, se, py, gset)
+                    r = _call(n2p.formtran, nas_x, se, py, gset)
                     impl = _tran_reply(r)
                     if r[0] == "ok":
                         if se == 0:
@@ -797,8 +797,8 @@ def _tran_streams(ctx, cs, masks):
                     else:
                         br = ("formtran0:" if se == 0 else "formtran:") + r[0]
                     if r[0] == "ok" and se != 0:
-                        L = T._letters(nas["uset"][se], nmask)
-                        keys = [tuple(k) for k in nas["uset"][se].index.tolist()]
+                        L = T._letters(nas_x["uset"][se], nmask)
+                        keys = [tuple(k) for k in nas_x["uset"][se].index.tolist()]
                         for d_ in T.expand(py):
                             if d_ in keys:
                                 ctx.count("formtran-row:" + L[keys.index(d_)])
@@ -808,8 +808,10 @@ def _tran_streams(ctx, cs, masks):
                             br = "formtran:all-a-set"
                     if "repeated" in rt and r[0] == "ok":
                         ctx.count("formtran:repeated-dof")
-                    cs.add("formtran", "ftran %d %d %s | %s | %s" % (se, gset, kind, secs, sec), impl,
-                           dict(plain, what="formtran", se=se, dof=py, gset=gset), nontrivial=r[0] == "ok", branch=br)
+                    if se in with_e and r[0] == "ok" and not (se == 0 and (gset or 0 in nas["phg"])):
+                        ctx.count("formtran:extra-points" + (":residual-pha" if se == 0 else ":upstream-se"))
+                    cs.add("formtran", "ftran %d %d %s | %s | %s" % (se, gset, kind, secs_x, sec), impl,
+                           dict(plain_x, what="formtran", se=se, dof=py, gset=gset), nontrivial=r[0] == "ok", branch=br)
             # ---- formulvs ----
             for c in ses:
                 path = [c]
@@ -1533,7 +1535,8 @@ def correspondence(ctx):
         "formtran:general", "formtran:all-a-set", "formtran:value-error", "formtran:repeated-dof",
         "formtran-row:b", "formtran-row:o", "formtran-row:m", "formtran-row:q", "formtran-row:s", "formtran-row:c",
         "formtran-row:r", "formtran0:gset", "formtran0:phg", "formtran0:pha", "formtran0:runtime-error",
-        "formtran0:value-error", "tran-input:goq-absent", "tran-input:got-absent", "tran-input:gm-no-o",
+        "formtran0:value-error", "formtran:extra-points:residual-pha", "formtran:extra-points:upstream-se",
+        "tran-input:goq-absent", "tran-input:got-absent", "tran-input:gm-no-o",
         "formulvs:depth-1", "formulvs:depth-2", "formulvs:depth-3", "formulvs:one", "formulvs:value-error",
         "formulvs:keepcset-false", "formulvs:gset", "formulvs:to-upstream-se", "formulvs:runtime-error",
         "formulvs:index-error", "formdrm:same-se", "formdrm:downstream", "formdrm:value-error", "formdrm:stored-ulvs",
@@ -1997,7 +2000,9 @@ def _oracle_locate(ctx, kind, inp):
 
 # found by this check while the matrix routines were modelled
 FIXED_F68 = "formtran-se0-gset-repeated-dof"  # repaired in /repo (fix: commit 061ccd9); kept as a regression guard
-OPEN_F69 = "formtran-se0-pha-extra-point-rows"  # open
+# repaired in /repo (fix: commit e74e9b9: `iddof` built from the g-set rows in _proc_mset, _formtran_0, formtran); kept as a
+# regression guard: a table with extra points in front of / between its DOF - RuntimeError, or rows of OTHER DOF without any exception
+FIXED_F69 = "formtran-se0-pha-extra-point-rows"
 
 
 def _oracle_tran(ctx, inp):
@@ -2080,14 +2085,15 @@ def _oracle_tran(ctx, inp):
             fam = tag + "-wrong-rows"
             if len(set(req)) < len(req) and se == 0 and gset:
                 fam = FIXED_F68
-            extra_pt = se == 0 and not gset and 0 not in nas["phg"] and "e" in L
+            # the branches that look DOF up in `iddof`: the residual through pha, and every upstream SE
+            extra_pt = what == "formtran" and "e" in L and not (se == 0 and (gset or 0 in nas["phg"]))
             if r[0] != "ok":
-                ctx.fail(OPEN_F69 if extra_pt else tag + "-raises",
+                ctx.fail(FIXED_F69 if extra_pt else tag + "-raises",
                          "%s raises %s on a request whose DOF are all recoverable" % (what, r[0]),
                          full_inp, r[0], "a matrix with one row per requested DOF")
                 return
             if extra_pt:
-                fam = OPEN_F69
+                fam = FIXED_F69
             tran, od = r[1]
             if np.ndim(tran) and np.asarray(tran).shape[1] != x.shape[0]:
                 ctx.fail(tag + "-wrong-columns", "the columns of the result must be the a-set (modal / g-set) DOF of the SE",
@@ -2247,7 +2253,8 @@ def _oracle_usetprt(ctx, inp):
 
 def _probe_findings(ctx):
     """the inputs of the two findings made while the matrix routines were modelled: F68 (repaired in /repo by 061ccd9:
-    the rule is kept as a regression guard and passes on the repaired tree) and F69 (open)"""
+    the rule is kept as a regression guard and passes on the repaired tree) and F69 (repaired by e74e9b9: regression guards
+    for both faces of the defect - the RuntimeError and the silently wrong rows)"""
     from props import c18_tran as T
     from props import c18_nas as N
 
@@ -2259,14 +2266,29 @@ def _probe_findings(ctx):
     nas = {"selist": [[0, 0]], "uset": {"0": [[1, d, b] for d in range(1, 7)] + [[2, 0, q]]}, "dnids": {}, "maps": {}, "upids": {}}
     plain = {"nas": nas, "mats": {}, "parent": {}, "expected_upa": {}}
     _oracle_tran(ctx, dict(plain, what="formtran", se=0, dof=[[1, 12], [1, 2], [2, 0]], gset=True))
-    # (2) _formtran_0 through nas['pha'] with an extra point (e-set) in front of a-set DOF: positions within the
-    #     g-set are used as rows of the whole table (`iddof[a]`), the request is answered with RuntimeError
+    # (2) F69, fixed: _formtran_0 through nas['pha'] with an extra point (e-set) in front of a-set DOF: before the fix
+    #     positions within the g-set were used as rows of the whole table (`iddof[a]`) and the request was answered with
+    #     RuntimeError
     nas = {"selist": [[0, 0]], "uset": {"0": [[1, 0, e]] + [[2, d, b] for d in range(1, 7)] + [[3, 0, q]]},
            "dnids": {}, "maps": {}, "upids": {}}
     pha = {"0": {"shape": [7, 2], "data": [float(v) for v in range(14)]}}
     plain = {"nas": nas, "mats": {"pha": pha}, "parent": {}, "expected_upa": {}}
     _oracle_tran(ctx, dict(plain, what="formtran", se=0, dof=[[2, 1], [3, 0]], gset=False))
-    ctx.count("oracle:finding-probes", 2)
+    # (3) F69, fixed, the silent face: formtran for an upstream SE, table e b o b, GOT = [[2, 3]], the o-set DOF requested:
+    #     before the fix the row of ANOTHER DOF came back ([[0, 1]] instead of [[2, 3]]: u_o = GOT u_t), no exception; and
+    #     the residual with an extra point BETWEEN the DOF and an m-set DOF recovered through GM
+    o, m, s_ = masks["o"], masks["m"], masks["s"]
+    nas = {"selist": [[1, 0], [0, 0]], "uset": {"1": [[1, 0, e], [2, 0, b], [3, 0, o], [4, 0, b]]}, "dnids": {}, "maps": {}, "upids": {}}
+    got = {"1": {"shape": [1, 2], "data": [2.0, 3.0]}}
+    plain = {"nas": nas, "mats": {"got": got}, "parent": {"1": 0}, "expected_upa": {}}
+    for dof in ([[3, 0]], [[2, 0], [3, 0]], [[4, 0], [3, 0], [2, 0]]):
+        _oracle_tran(ctx, dict(plain, what="formtran", se=1, dof=dof, gset=False))
+    nas = {"selist": [[0, 0]], "uset": {"0": [[1, 0, e], [5, 0, b], [6, 0, m], [8, 0, e], [7, 0, q], [9, 0, s_]]},
+           "dnids": {}, "maps": {}, "upids": {}}
+    mats = {"pha": {"0": {"shape": [2, 1], "data": [1.0, 10.0]}}, "gm": {"0": {"shape": [1, 3], "data": [2.0, 3.0, 0.0]}}}
+    plain = {"nas": nas, "mats": mats, "parent": {}, "expected_upa": {}}
+    _oracle_tran(ctx, dict(plain, what="formtran", se=0, dof=[[7, 0], [6, 0], [9, 0]], gset=False))
+    ctx.count("oracle:finding-probes", 6)
 
 
 def _corpus(ctx):
@@ -2462,10 +2484,14 @@ def search(ctx, hints):
         plain = {"nas": N.to_plain(nas), "mats": T.plain_mats(nas), "parent": {str(k): v for k, v in info["parent"].items()},
                  "expected_upa": {str(k): v for k, v in info["expected_upa"].items()}}
         ses = info["order"]
+        nas_x, with_e = T.with_extra_points(rng, nas, masks_, share=0.5)
+        plain_x = dict(plain, nas=N.to_plain(nas_x))
         for se in [0] + rng.sample(ses, min(2, len(ses))):
-            py, _k, _sec, rt = T.gen_request(rng, nas["uset"][se], masks_)
-            _oracle_tran(ctx, dict(plain, what="formtran", se=se, dof=py, gset=se == 0 and rng.random() < 0.4))
+            py, _k, _sec, rt = T.gen_request(rng, nas_x["uset"][se], masks_)
+            _oracle_tran(ctx, dict(plain_x, what="formtran", se=se, dof=py, gset=se == 0 and rng.random() < 0.4))
             ctx.count("oracle:formtran")
+            if se in with_e:
+                ctx.count("oracle:formtran:extra-points")
         for c in ses:
             path = [c]
             while path[-1] != 0:
